@@ -145,6 +145,28 @@ def run(prog, chk):
             raise AnalysisBroken('populate loop in %s iterates an unrecognised source: %s' % (f.short, SX.show(rng)[:60]))
     chk.count('class populate loops reading the base layout', n2, 1)
 
+    # ---- R10.2b: analyser computations that inherit from the base must run base-first ----------------
+    nacc = 0
+    for V in amethods:
+        if not V.body or V.kind != 'method':
+            continue
+        acc = _inherited_accumulation(V)
+        if not acc:
+            continue
+        nacc += 1
+        sites = prog.callers(V)
+        if not sites:
+            continue
+        for gfn, call in sites:
+            host = gfn
+            ok, why = False, 'called outside a base-first walk'
+            if gfn.kind == 'lambda' and gfn.parent is not None:
+                ok, why = _post_order_closure(prog, gfn.parent, gfn, call, 'validated')
+            chk.ob('R10.2', gfn, call.get('ln', gfn.ln), ok,
+                   '%s derives %s of a class from the same datum of its base, so it must run on the base first: %s' % (V.short, acc, why),
+                   key='inherit:%s' % V.short)
+    chk.count('analyser functions that accumulate inherited data', nacc, 1)
+
     # ---- R10.3 ---------------------------------------------------------------------------------
     user = {id(f) for f in evfns if f.short in ('eval', 'exec')}
     if len(user) < 2:
@@ -235,6 +257,35 @@ def run(prog, chk):
     chk.count('loops that can run user code', n3, 5)
 
 
+def _inherited_accumulation(V):
+    """V(ClassInfo& info): reads <base>->F where <base> is looked up from info.base and writes info.F → name of F"""
+    infos = [p for p in V.params if p['type'].endswith('ClassInfo &')]
+    if not infos:
+        return None
+    pid = infos[0]['id']
+    written = set()
+    for n in SX.walk(V.body, into_lambdas=False):
+        w = SX.write_target(n)
+        if w:
+            l = SX.strip(w[0])
+            if SX.is_node(l) and l['k'] == 'member' and SX.is_node(l['base']) and l['base'].get('id') == pid:
+                written.add(l['name'])
+    if not written:
+        return None
+    # locals bound to the base class record
+    base_locals = set()
+    for n in SX.walk(V.body, into_lambdas=False):
+        if n['k'] == 'var' and SX.is_node(n.get('init')) and any(
+                x['k'] == 'member' and x['name'] == 'base' and SX.is_node(x['base']) and x['base'].get('id') == pid for x in SX.walk(n['init'])):
+            base_locals.add(n['id'])
+    for n in SX.walk(V.body, into_lambdas=False):
+        if n['k'] == 'member' and n['name'] in written:
+            root, names = SX.member_chain(n)
+            if SX.is_node(root) and root['k'] == 'ref' and root.get('id') in base_locals:
+                return n['name']
+    return None
+
+
 def _writes_within(prog, f, wfns, depth):
     if f.key in wfns:
         return True
@@ -301,7 +352,12 @@ def _post_order_vector(prog, f, ref):
     if len(pushes) != 1:
         return False, 'expected exactly one push site inside a recursive walk, found %d' % len(pushes)
     lf, push = pushes[0]
-    # the closure is bound to a local (std::function) and calls itself
+    return _post_order_closure(prog, f, lf, push, 'pushed')
+
+
+def _post_order_closure(prog, f, lf, target, verb):
+    """closure lf (bound to a local of f) recurses into the base of its argument before it reaches `target`, skips a class only
+    when it is null or already done, and is applied to every class."""
     from ..ktry import parent_map
     pm = parent_map(f.body)
     par = pm.get(id(lf.node))
@@ -312,34 +368,50 @@ def _post_order_vector(prog, f, ref):
     selfid = par['id']
     g = prog.cfg(lf)
     selfcalls = [c for c in g.calls(lambda e: e['k'] == 'opcall' and e['op'] == '()' and e['args'] and SX.is_node(e['args'][0]) and e['args'][0].get('id') == selfid)]
-    pnode = [c for c in g.nodes if c.e is push]
+    pnode = [c for c in g.nodes if c.e is target]
     if not selfcalls or not pnode:
         return False, 'walk closure does not recurse'
     pnode = pnode[0]
-    # recursion argument must come from the base link of the declaration (name lookup of the base)
-    base_arg = any(any(x['k'] == 'member' and x['name'] in ('baseType', 'baseName', 'base') for x in SX.walk(lf.body)) for _ in [0])
-    # post-order: the push is not followed by a recursive call, and every recursive call site's controlling test precedes the push
+    base_arg = any(x['k'] == 'member' and x['name'] in ('baseType', 'baseName', 'base') for x in SX.walk(lf.body))
     after = g.reachable([pnode])
     if any(c.id in after for c in selfcalls):
-        return False, 'the declaration is pushed before its base is walked (pre-order)'
+        return False, 'the class is %s before its base is walked (pre-order)' % verb
     ctrl = []
     for c in selfcalls:
         gs = g.guards(c)
         ctrl.append(gs[0][2].cond if gs else c)
     if not all(g.must_precede([x], pnode) for x in ctrl):
-        return False, 'a path reaches the push without having considered the base'
+        return False, 'a path reaches the point where the class is %s without having considered the base' % verb
     if not base_arg:
         return False, 'the recursion does not follow the base link'
-    # applied to all top-level classes
+    # early exits before the base is considered: only "null" and "already done"
+    pids = {p['id'] for p in lf.params}
+    early = g.reachable([g.entry], avoid=ctrl)
+    for cn in g.nodes:
+        if cn.kind == 'cond' and cn.id in early and g.exit.id in g.reachable([cn], avoid=ctrl + [pnode]):
+            if not _null_or_done_test(cn.e, pids):
+                return False, 'the walk can stop at `%s` without walking the base link (a class reached only through such a node is laid out too late)' % SX.show(cn.e)[:60]
     applied = False
     for lp in SX.walk(f.body, into_lambdas=False):
-        if lp['k'] == 'forrange' and _program_collection(lp['range']) == 'classes' and _full_loose(lp):
+        if lp['k'] == 'forrange' and _full_loose(lp) and (_program_collection(lp['range']) == 'classes' or 'unordered_map<std::string' in lp.get('rt', '')):
             if any(n['k'] == 'opcall' and n['op'] == '()' and n['args'] and SX.is_node(n['args'][0]) and n['args'][0].get('id') == selfid
                    for n in SX.walk(lp['body'], into_lambdas=False)):
                 applied = True
     if not applied:
-        return False, 'the walk is not applied to every top-level class'
-    return True, 'filled by a post-order walk over base links applied to every class'
+        return False, 'the walk is not applied to every class'
+    return True, '%s by a post-order walk over base links applied to every class' % verb
+
+
+def _null_or_done_test(ce, pids):
+    """null test of the walk parameter, membership/insert test on a local set/map keyed by the parameter, or end() test of such a lookup"""
+    for x in SX.walk(ce):
+        if x['k'] == 'member' and x['name'] not in ('second', 'first') and not (SX.is_node(x['base']) and x['base']['k'] == 'this'):
+            return False
+        if x['k'] == 'mcall' and SX.short(x['callee']) not in ('insert', 'count', 'find', 'contains', 'end', 'emplace', 'operator bool'):
+            return False
+        if x['k'] == 'call':
+            return False
+    return True
 
 
 def _all_lambdas(f):
